@@ -99,9 +99,28 @@ fn global_deviation(d: &Data) -> f32 {
     d.meta.get(&BdlBlockType::BuildParameters).map(|p| p.attrs.get_f32_or_default("AZIMUTH")).unwrap_or_default()
 }
 
+thread_local! {
+    /// position and azimuth of every space as WRITTEN in the project being looked at: X, Y, Z + the Z of its
+    /// floor, AZIMUTH, read from the raw blocks (not from what bdl::Data::new merged into the space)
+    static SRCPOS: std::cell::RefCell<std::collections::HashMap<String, (f32, f32, f32, f32)>> = Default::default();
+}
+fn load_srcpos(bdl: &str) {
+    let mut m = std::collections::HashMap::new();
+    if let Ok(blocks) = hulc::bdl::build_blocks(bdl) {
+        let floor_z: std::collections::HashMap<String, f32> =
+            blocks.iter().filter(|b| b.btype == BdlBlockType::Floor).map(|b| (b.name.clone(), b.attrs.get_f32("Z").unwrap_or(0.0))).collect();
+        for b in blocks.iter().filter(|b| b.btype == BdlBlockType::Space) {
+            let g = |k: &str| b.attrs.get_f32(k).unwrap_or(0.0);
+            let fz = b.parent.as_ref().and_then(|p| floor_z.get(p)).copied().unwrap_or(0.0);
+            m.insert(b.name.clone(), (g("X"), g("Y"), g("Z") + fz, g("AZIMUTH")));
+        }
+    }
+    SRCPOS.with(|c| *c.borrow_mut() = m);
+}
 fn space_term(s: &hulc::bdl::Space) -> String {
     let poly: Vec<String> = s.polygon.as_vec().iter().map(|p| format!("({}, {})", coq::q(p.x), coq::q(p.y))).collect();
-    format!("(mkSS {} {} {} {})", v3f(s.x, s.y, s.z), cs_term(s.angle_with_building_north as f64).0, coq::q(s.height), lst(&poly))
+    let (x, y, z, az) = SRCPOS.with(|c| c.borrow().get(&s.name).copied()).unwrap_or((s.x, s.y, s.z, s.angle_with_building_north));
+    format!("(mkSS {} {} {} {})", v3f(x, y, z), cs_term(az as f64).0, coq::q(s.height), lst(&poly))
 }
 
 fn global_points(g: &bemodel::WallGeom) -> Option<Vec<Point3<f32>>> {
@@ -192,6 +211,14 @@ pub fn run(a: &Args) -> Batch {
                 bdl = t;
                 what.push(format!("space {} at ({}, {})", s.name, x, y));
             }
+            // a level of its own within the storey
+            if r.chance(1, 2) {
+                let z = r.grid(-3.0, 3.0, 0.5);
+                if let Some(t) = set_attr(&bdl, &s.name, "SPACE", "Z", &format!("{}", z)) {
+                    bdl = t;
+                    what.push(format!("space {} raised {}", s.name, z));
+                }
+            }
             if kind == 2 {
                 let ang = r.pick(&EXACT).0;
                 if let Some(t) = set_attr(&bdl, &s.name, "SPACE", "AZIMUTH", &format!("{:.6}", ang)) {
@@ -241,6 +268,7 @@ pub fn run(a: &Args) -> Batch {
                 continue;
             }
         };
+        load_srcpos(&src.bdl());
         let dev = global_deviation(&c.data);
         let (dev_t, _) = cs_term(dev as f64);
         // gross areas as the model reports them (WallGeom::area through the public indicators)
@@ -430,7 +458,7 @@ pub fn run(a: &Args) -> Batch {
         agree: "agree_C03".into(),
         cases,
         impl_findings: vec![],
-        rule: "projects = the shipped .ctehexml projects + variants with the building deviation set to an exact-trigonometry angle (multiples of 90, 3-4-5, 5-12-13, 7-24-25 triangles) or a random tenth of a degree, spaces offset within the building, spaces turned within the building, rectangular shades re-tilted (0, 90, 180 and 3-4-5 angles) and re-oriented, ceilings taken from the space outline given an azimuth of their own; per converted project: every wall on an edge of its space outline (4 corners through WallGeom::to_global_coords_matrix + outward normal), every floor / ceiling taken from the outline, every wall / roof given by its own polygon (all corners), every wall / slab area, every window (offset, size, setback), every rectangular shade (4 corners) and every shade given by vertices; per shipped project the same project with its deviation increased by an exact angle: positions, azimuths, areas, U-values, K, n50, volumes. Angles that are not exact carry an interval certificate that the (cos, sin) pair is right to 1e-7. non-trivial = the building is turned or the space offset".into(),
+        rule: "projects = the shipped .ctehexml projects + variants with the building deviation set to an exact-trigonometry angle (multiples of 90, 3-4-5, 5-12-13, 7-24-25 triangles) or a random tenth of a degree, spaces offset within the building (in plan and in height), spaces turned within the building, rectangular shades re-tilted (0, 90, 180 and 3-4-5 angles) and re-oriented, ceilings taken from the space outline given an azimuth of their own; per converted project: every wall on an edge of its space outline (4 corners through WallGeom::to_global_coords_matrix + outward normal), every floor / ceiling taken from the outline, every wall / roof given by its own polygon (all corners), every wall / slab area, every window (offset, size, setback), every rectangular shade (4 corners) and every shade given by vertices; per shipped project the same project with its deviation increased by an exact angle: positions, azimuths, areas, U-values, K, n50, volumes. Angles that are not exact carry an interval certificate that the (cos, sin) pair is right to 1e-7. non-trivial = the building is turned or the space offset".into(),
         stats: json!({"projects": projects.len(), "variants": nvar, "not_converted": not_converted, "cases_by_kind": st}),
     }
 }
